@@ -272,6 +272,8 @@ def judge_write(step, rep, pre, post, names, src_dir, sh, case):
     nm = step["name"]
     v0, v1 = layersim.view(pre, nm), layersim.view(post, nm)
     what = "LayerRef(%s).%s" % (nm, step["op"])
+    if step.get("swap"):              # used by C20 only: exec.d re-arranged from its own files / a replace that must fail; whatever it
+        return True                   # leaves behind is compared across processes, not judged here
     if not check_others(pre, post, names, nm, sh, case, what):
         return False
     if "err" in rep:
@@ -280,8 +282,6 @@ def judge_write(step, rep, pre, post, names, src_dir, sh, case):
     t0 = layersim.parse_toml(v0["toml"]) if v0["toml"] is not None else (None, None)
     t1 = layersim.parse_toml(v1["toml"]) if v1["toml"] is not None else (None, None)
     op = step["op"]
-    if step.get("swap"):              # used by C20 only: exec.d re-arranged from its own files; compared across processes, not judged here
-        return "err" not in rep
     if op == "env_to_metadata":       # used by C20 only: the derived metadata is compared across processes, not judged here
         return True
     if op in ("write_metadata", "write_metadata_typed"):
